@@ -1,6 +1,7 @@
 //! Witness search for unit C18.encode_default: call the real default
 //! `PixelDataWriter::encode` with an adapter whose `encode_frame` emits frames of
-//! chosen lengths and compare the basic offset table with the PS3.5 A.4 value.
+//! chosen lengths and compare the basic offset table with the PS3.5 A.4 value; every fragment is the frame's bytes
+//! padded to even length with one zero byte.
 use dicom_core::ops::AttributeOp;
 use dicom_encoding::adapters::{EncodeOptions, EncodeResult, PixelDataObject, PixelDataWriter, RawPixelData};
 use std::borrow::Cow;
@@ -46,7 +47,8 @@ fn main() {
                 expect.push(off);
                 off += 8 + *l as u32 + (*l as u32 % 2);
             }
-            let frag_ok = dst.len() == n && dst.iter().zip(&lens).all(|(f, l)| f.len() == *l);
+            // every fragment has even length: the frame's bytes, and one zero byte of padding when the frame is odd
+            let frag_ok = dst.len() == n && dst.iter().zip(&lens).enumerate().all(|(i, (f, l))| f.len() == *l + *l % 2 && f[..*l].iter().all(|b| *b == i as u8) && f[*l..].iter().all(|b| *b == 0));
             if r.is_err() || bot != expect || !frag_ok {
                 println!("WITNESS unit=C18.encode_default frame_lengths={:?} offset_table={:?} expected={:?} fragments_ok={}", lens, bot, expect, frag_ok);
                 println!("reproduce: cargo run --offline --manifest-path /verif/witness/Cargo.toml --bin c18_encode");
